@@ -12,11 +12,13 @@ package main
 
 import (
 	"context"
+	"encoding/json"
 	"flag"
 	"fmt"
 	"hash/fnv"
 	"math/rand"
 	"os"
+	"path/filepath"
 	"strings"
 
 	"github.com/tetratelabs/wazero"
@@ -168,6 +170,86 @@ type replay struct {
 	Calls   []callRec `json:"calls"`
 }
 
+// replayFile re-runs a replay (module text + calls) on both engines and the Lean reference and prints
+// the three observations of every call; used by `./check C01 --replay FILE` and for shrinking by hand.
+var quiet bool
+
+func replayFile(path string) {
+	raw, err := os.ReadFile(path)
+	if err != nil {
+		hx.Fatal("%v", err)
+	}
+	var rp replay
+	if err := json.Unmarshal(raw, &rp); err != nil {
+		// a full replay file of ./check: take the first impl violation's input
+		hx.Fatal("replay: %v", err)
+	}
+	if len(rp.Module) == 0 {
+		var full struct {
+			Impl []struct {
+				Input replay `json:"input"`
+			} `json:"impl_violations"`
+		}
+		json.Unmarshal(raw, &full)
+		if len(full.Impl) == 0 {
+			hx.Fatal("replay: no module in %s", path)
+		}
+		rp = full.Impl[0].Input
+	}
+	m, err := gen.FromLines(rp.Module)
+	if err != nil {
+		hx.Fatal("replay: %v", err)
+	}
+	bin := m.Binary()
+	var engines []*engineInst
+	for _, e := range []struct {
+		n  string
+		rc wazero.RuntimeConfig
+	}{{"interpreter", wazero.NewRuntimeConfigInterpreter()}, {"compiler", wazero.NewRuntimeConfigCompiler()}} {
+		inst, err := instantiate(e.n, e.rc, m, bin)
+		if err != nil {
+			fmt.Printf("%s: instantiate: %v\n", e.n, err)
+			continue
+		}
+		engines = append(engines, inst)
+	}
+	for _, l := range m.Lines(1) {
+		if a := orc.Ask(l); a != "ok" {
+			fmt.Printf("lean: %q -> %s\n", l, a)
+		}
+	}
+	defer func() {
+		orc.Ask("c01 drop 1")
+		for _, e := range engines {
+			e.rt.Close(ctx)
+		}
+	}()
+	for c, call := range rp.Calls {
+		args := make([]uint64, len(call.Args))
+		for k, a := range call.Args {
+			fmt.Sscanf(a, "%x", &args[k])
+		}
+		var obs []string
+		for _, e := range engines {
+			o := e.observe(m, call.Func, args, call.Fuel)
+			obs = append(obs, o)
+			if !quiet {
+				fmt.Printf("call %d %-12s %s\n", c, e.name, o)
+			}
+		}
+		want := orc.Askf("c01 call 1 %d %d %s", call.Func, call.Fuel, strings.Join(append([]string{""}, call.Args...), " "))
+		if !quiet {
+			fmt.Printf("call %d %-12s %s\n", c, "lean", want)
+		}
+		rep.Case(fmt.Sprintf("replay/c%d", c))
+		if len(obs) == 2 && obs[0] != obs[1] {
+			rep.Violate(hx.Violation{Kind: "impl-violation", Signature: "C01:engines-differ", What: fmt.Sprintf("replayed call %d: interpreter and compiler differ", c), Input: rp, Expected: obs[0], Actual: obs[1]})
+		} else if len(obs) == 2 && want != "exhausted" && want != obs[0] {
+			rep.Violate(hx.Violation{Kind: "impl-violation", Signature: "C01:engines-differ-from-spec", What: fmt.Sprintf("replayed call %d: engines differ from the Lean reference", c), Input: rp, Expected: want, Actual: obs[0]})
+		}
+	}
+}
+
 func runProgram(r *rand.Rand, pi int, cfg gen.Config, useLean bool) {
 	m := gen.Generate(r, cfg)
 	bin := m.Binary()
@@ -254,6 +336,21 @@ func main() {
 	orc = hx.StartOracle()
 	defer orc.Close()
 	rep = hx.NewReport("C01", "programs from the stack-typed generator (package gen): 1-6 functions with calls/call_indirect/host imports, nested block/loop/if/br/br_if/br_table/return, all integer+float numeric ops, all load/store widths, memory.size/grow, globals; histories of 1-10 export calls with boundary-biased arguments; distinct = (program, call index); all are non-trivial (each executes generated code on both engines and the Lean reference)")
+	if *hx.Replay != "" {
+		replayFile(*hx.Replay)
+		rep.Case("replay")
+		rep.Write(orc)
+		return
+	}
+	// corpus first: minimised past divergences (witnesses of fixed defects must stay fixed)
+	if root := os.Getenv("VERIF_ROOT"); root != "" {
+		files, _ := filepath.Glob(filepath.Join(root, "corpus", "C01", "*.json"))
+		quiet = true
+		for _, f := range files {
+			replayFile(f)
+			rep.Count("corpus")
+		}
+	}
 	r := hx.Rand()
 	progs := 300
 	if hx.Thorough() {
@@ -263,7 +360,11 @@ func main() {
 		progs = *n
 	}
 	for pi := 0; pi < progs; pi++ {
-		cfg := gen.Config{MaxFuncs: 1 + r.Intn(6), MaxDepth: 2 + r.Intn(4), MaxStmts: 1 + r.Intn(6), Floats: r.Intn(4) > 0, Memory: true, Imports: r.Intn(3)}
+		cfg := gen.Config{MaxFuncs: 1 + r.Intn(6), MaxDepth: 2 + r.Intn(4), MaxStmts: 1 + r.Intn(6), Floats: r.Intn(4) > 0, Memory: true, Imports: r.Intn(3), Bulk: r.Intn(2) == 0}
+		if r.Intn(4) == 0 { // register-pressure / ABI-cliff profile: many params, results and locals
+			cfg.MaxParams, cfg.MaxResults, cfg.MaxLocals = 6+r.Intn(10), 1+r.Intn(5), 8+r.Intn(16)
+			cfg.MaxDepth = 2 + r.Intn(2)
+		}
 		if os.Getenv("HC01_V") != "" {
 			fmt.Fprintf(os.Stderr, "prog %d %+v\n", pi, cfg)
 		}
